@@ -401,6 +401,16 @@ def run(p, report, tier):
         if o.rule == "R9.1" and ("SubSamplingWrapper" in o.entity or "ParallelUtilityEstimationWrapper" in o.entity
                                   or "SingleAnnotatorWrapper" in o.entity):
             report.add("R20.4", o.entity, o.construct, o.loc, o.ok, detail=o.detail)
+    report.rule("R20.6", "`max_candidates` is a fraction exactly when it is a float (as documented and as validated): every "
+                "conversion of it into a count (`ceil(n * max_candidates)`) sits under an isinstance test of it, not under a "
+                "test of its value - `max_candidates < 1` turns the legal fraction 1.0 into a single candidate", floor=2)
+    check_ratio_dispatch(p, report)
+    report.rule("R20.5", "the wrappers combine ranks and utilities in full-width floats: no array in them is created with / "
+                "cast to a bounded-width dtype - in float32 `rank + performance` rounds up to the next rank for a few thousand "
+                "candidates, so the order of the wrapped strategy is no longer kept (shared with C04 R4.10)", floor=4)
+    from . import c04 as _c04
+    _c04.check_no_narrow_dtype(p, report, "R20.5", lambda f: f.file in ("skactiveml/pool/_wrapper.py",
+                                                                        "skactiveml/pool/multiannotator/_wrapper.py"))
     report.assumptions += ["numerical equality of wrapped and unwrapped utilities is not decided",
                            "joblib.Parallel returns results in submission order"]
 
@@ -605,3 +615,46 @@ def _before(tree, a, b):
                 and _emptiness_guard(tree.fnode, owner.test):
             return True
     return False
+
+
+def check_ratio_dispatch(p, report):
+    ci = p.get_class("SubSamplingWrapper")
+    if ci is None:
+        raise AnalysisError("SubSamplingWrapper vanished")
+    n = 0
+    for mn, f in sorted(ci.methods.items()):
+        role = set()
+        for a in ast.walk(f.node):
+            if isinstance(a, ast.Assign) and isinstance(a.value, ast.Attribute) and isinstance(a.value.value, ast.Name) \
+                    and a.value.value.id == "self" and a.value.attr == "max_candidates":
+                role |= {t.id for t in a.targets if isinstance(t, ast.Name)}
+
+        def mentions(e):
+            for x in ast.walk(e):
+                if isinstance(x, ast.Name) and x.id in role:
+                    return True
+                if isinstance(x, ast.Attribute) and x.attr == "max_candidates" and isinstance(x.value, ast.Name) and x.value.id == "self":
+                    return True
+            return False
+        tree = FuncTree(f.node)
+        for c in ast.walk(f.node):
+            if not (isinstance(c, ast.Call) and (ast.unparse(c.func).split(".")[-1] in ("ceil", "floor", "round", "int", "rint"))
+                    and c.args and any(isinstance(b, ast.BinOp) and isinstance(b.op, ast.Mult) and mentions(b) for b in ast.walk(c.args[0]))):
+                continue
+            n += 1
+            st = tree.stmt_of(c)
+            ok = False
+            for (s_, owner, field, idx) in tree.ancestors(st):
+                if isinstance(owner, ast.If):
+                    for t in ast.walk(owner.test):
+                        if isinstance(t, ast.Call) and isinstance(t.func, ast.Name) and t.func.id == "isinstance" and len(t.args) == 2 \
+                                and mentions(t.args[0]) and any(isinstance(x, ast.Name) and x.id in ("float", "int", "Integral", "Real")
+                                                                  or isinstance(x, ast.Attribute) and x.attr in ("floating", "integer", "Integral", "Real")
+                                                                  for x in ast.walk(t.args[1])):
+                            ok = True
+            report.add("R20.6", f.qual, f"`{norm_stmt(st, 60)}` converts a fraction under a type test", f"{f.file}:{c.lineno}", ok,
+                       detail="under isinstance(max_candidates, float)" if ok else
+                       "the fraction / count decision is not made by the type of max_candidates: the documented fraction 1.0 (all "
+                       "candidates) is then treated as the count 1, so the sub-sample has the wrong size")
+    if n == 0:
+        raise AnalysisError("no fraction-to-count conversion of max_candidates found in SubSamplingWrapper")
